@@ -27,6 +27,8 @@ type multiModel struct {
 	release    []*ssa.Function // closures created in Acquire that decrement the count
 	lockClass  string
 	handleT    string // type of the handle allocated in Acquire
+	R          *Region // Acquire and its helpers
+	gCreate    *Guard  // socket == nil edge of Acquire
 }
 
 func fieldType(p *eng.Prog, typ, field string) types.Type {
@@ -80,7 +82,7 @@ func findMultiListeners(c *Ctx, rule string) []*multiModel {
 		for _, fl := range c.P.StructFields(m.T) {
 			if b, ok := fl.Type().Underlying().(*types.Basic); ok && b.Info()&types.IsInteger != 0 {
 				for _, st := range c.P.FieldStores(m.T, fl.Name()) {
-					if st.Fn == f && st.Val != nil {
+					if st.Val != nil {
 						if d, ok := incrementOf(st.Val, m.T, fl.Name()); ok && d == 1 {
 							m.countField = fl.Name()
 						}
@@ -95,25 +97,43 @@ func findMultiListeners(c *Ctx, rule string) []*multiModel {
 			c.Undecided(rule, "anchor:"+m.T+":count-field", c.P.Pos(f.Pos()), "Acquire increments no integer field of its receiver")
 			continue
 		}
-		for _, b := range f.Blocks {
-			for _, ins := range b.Instrs {
-				if g, ok := ins.(*ssa.Go); ok {
-					m.goSites = append(m.goSites, g)
-					for _, t := range c.P.Callees(g) {
-						if c.P.InRepo(t) {
-							m.pumps = append(m.pumps, t)
-						}
+		acq := f
+		ce := m.createEdge
+		m.R = c.NewRegion(f, 2, func(h *ssa.Function) bool {
+			if eng.PkgPathOf(h) != eng.Mod+"/service" {
+				return true
+			}
+			// helpers are methods of T or plain functions of the package; not other types' methods
+			if h.Signature.Recv() != nil && eng.TypeName(h.Signature.Recv().Type()) != m.T {
+				return true
+			}
+			return false
+		})
+		m.gCreate = c.NewGuard(func(fn *ssa.Function) eng.EdgeSet {
+			if fn == acq {
+				return eng.EdgeSet{ce: true}
+			}
+			return eng.EdgeSet{}
+		})
+		for _, cl := range m.R.Calls() {
+			if g, ok := cl.(*ssa.Go); ok {
+				m.goSites = append(m.goSites, g)
+				for _, t := range c.P.Callees(g) {
+					if c.P.InRepo(t) {
+						m.pumps = append(m.pumps, t)
 					}
 				}
 			}
 		}
-		for _, a := range f.AnonFuncs {
-			for _, st := range c.P.FieldStores(m.T, m.countField) {
-				if st.Fn == a && st.Val != nil {
-					if d, ok := incrementOf(st.Val, m.T, m.countField); ok && d == -1 {
-						m.release = append(m.release, a)
-					}
-				}
+		// release functions: closures of Acquire or methods of T that decrement the count
+		seenRel := map[*ssa.Function]bool{}
+		for _, st := range c.P.FieldStores(m.T, m.countField) {
+			if st.Val == nil || seenRel[st.Fn] {
+				continue
+			}
+			if d, ok := incrementOf(st.Val, m.T, m.countField); ok && d == -1 {
+				seenRel[st.Fn] = true
+				m.release = append(m.release, st.Fn)
 			}
 		}
 		// lock class of T
@@ -123,8 +143,8 @@ func findMultiListeners(c *Ctx, rule string) []*multiModel {
 			}
 		}
 		// handle type: named struct allocated in Acquire other than T's own helpers, that has a chan struct{} field
-		for _, b := range f.Blocks {
-			for _, ins := range b.Instrs {
+		m.R.Instrs(func(_ *ssa.Function, ins ssa.Instruction) {
+			{
 				if al, ok := ins.(*ssa.Alloc); ok {
 					tn := eng.TypeName(al.Type())
 					if strings.HasPrefix(tn, "service.") && tn != m.T {
@@ -138,7 +158,7 @@ func findMultiListeners(c *Ctx, rule string) []*multiModel {
 					}
 				}
 			}
-		}
+		})
 		out = append(out, m)
 	}
 	sort.Slice(out, func(i, j int) bool { return out[i].T < out[j].T })
@@ -280,21 +300,19 @@ func methodCallOnField(p *eng.Prog, method, typ, field string) func(ssa.Instruct
 // C11.REFCOUNT for one shared-listener type.
 func ruleRefcount(c *Ctx, m *multiModel) {
 	p, f, l := c.P, m.acquire, c.L()
-	create := eng.EdgeSet{m.createEdge: true}
-	// (a) socket creation only on the socket == nil edge
+	// (a) socket creation only on the socket == nil edge (also when the bind lives in a helper)
 	nCreate := 0
-	for _, cl := range eng.Calls(f) {
+	for _, cl := range m.R.Calls() {
 		n := eng.CalleeName(cl.Common())
 		if strings.HasPrefix(n, "net.Listen") {
 			nCreate++
-			c.CheckAt("REFCOUNT", m.T+":create-socket-only-when-absent:"+n, cl, eng.Cut(f, cl.Block(), create), "the socket is (re)created on a path where one already exists: handles would no longer share one socket")
+			c.CheckAt("REFCOUNT", m.T+":create-socket-only-when-absent:"+n, cl, m.R.CutDeep(cl, m.gCreate), "the socket is (re)created on a path where one already exists: handles would no longer share one socket")
 		}
 	}
-	c.Floor("REFCOUNT", "socket creation calls in "+short(f), nCreate, 1)
-	// stores to the socket field in Acquire happen on the creation edge only
+	c.Floor("REFCOUNT", "socket creation calls in "+short(f)+" and its helpers", nCreate, 1)
 	for _, st := range p.FieldStores(m.T, m.sockField) {
-		if st.Fn == f {
-			c.CheckAt("REFCOUNT", m.T+":store-socket-only-when-absent", st.Ins, eng.Cut(f, st.Ins.Block(), create), "the socket field is overwritten while a socket exists")
+		if m.R.In[st.Fn] && !st.Fresh {
+			c.CheckAt("REFCOUNT", m.T+":store-socket-only-when-absent", st.Ins, m.R.CutDeep(st.Ins, m.gCreate), "the socket field is overwritten while a socket exists")
 		}
 	}
 	// (b) every success return passes exactly one increment; failure returns pass none
@@ -303,18 +321,18 @@ func ruleRefcount(c *Ctx, m *multiModel) {
 		if !ok {
 			return false
 		}
-		_, isInc := incrementOf(st.Val, m.T, m.countField)
-		return isInc
+		d, isInc := incrementOf(st.Val, m.T, m.countField)
+		return isInc && d == 1
 	}
+	must, may := m.R.Must(isIncr, nil), m.R.May(isIncr)
 	entry := eng.Point{B: f.Blocks[0], Idx: 0}
 	for i, r := range eng.Returns(f) {
 		if r.Block().Comment == "recover" {
 			continue
 		}
 		kind := returnKind(p, r)
-		mn, mx, _ := eng.CountOnPaths(entry, isIncr, func(ins ssa.Instruction) bool { return ins == ssa.Instruction(r) })
-		// CountOnPaths ends at any return; restrict to paths ending at r: recompute with end filter
-		mn, mx = countTo(entry, isIncr, r)
+		mn, _ := countTo(entry, must, r)
+		_, mx := countTo(entry, may, r)
 		switch kind {
 		case "success":
 			c.CheckAt("REFCOUNT", fmt.Sprintf("%s:count-incremented-once:return#%d", m.T, i), r, mn == 1 && mx == 1, fmt.Sprintf("a handle is returned after %d..%d increments of the handle count (must be exactly 1)", mn, mx))
@@ -428,18 +446,26 @@ func isPump(m *multiModel, f *ssa.Function) bool {
 // dominates the go statement (published by the go statement's happens-before), and no store anywhere resets the socket
 // field to nil (so the creating edge cannot be taken again while a reader goroutine may still be running).
 func writeOnceBeforeGo(c *Ctx, m *multiModel, field string) (bool, string) {
-	create := eng.EdgeSet{m.createEdge: true}
+	isGo := func(ins ssa.Instruction) bool { _, ok := ins.(*ssa.Go); return ok }
 	for _, st := range c.P.FieldStores(m.T, field) {
 		if st.Fresh {
 			continue
 		}
-		if st.Fn != m.acquire || !eng.Cut(m.acquire, st.Ins.Block(), create) {
+		if !m.R.In[st.Fn] || !m.R.CutDeep(st.Ins, m.gCreate) {
 			return false, "stored outside the socket-creation edge of Acquire at " + c.P.IPos(st.Ins)
 		}
-		for _, g := range m.goSites {
-			if !eng.Dominates(st.Ins, g) {
-				return false, "store at " + c.P.IPos(st.Ins) + " does not precede the go statement"
+		// the store executes before the go statement on every path
+		var theStore ssa.Instruction
+		for _, r := range *st.Ins.(*ssa.FieldAddr).Referrers() {
+			if s2, ok := r.(*ssa.Store); ok {
+				theStore = s2
 			}
+		}
+		if theStore == nil {
+			return false, "field address escapes at " + c.P.IPos(st.Ins)
+		}
+		if ok, _ := m.R.BeforeDeep(func(ins ssa.Instruction) bool { return ins == theStore }, isGo); !ok {
+			return false, "store at " + c.P.IPos(st.Ins) + " does not precede the go statement"
 		}
 	}
 	for _, st := range c.P.FieldStores(m.T, m.sockField) {
